@@ -137,8 +137,8 @@ def run(chk):
                 single = isinstance(n, ast.Assign) and len(n.targets) == 1 and isinstance(n.targets[0], ast.Attribute)
                 v = n.value if isinstance(n, ast.Assign) else None
                 kind = None
-                if isinstance(v, ast.Tuple) and all(isinstance(x, (ast.Name, ast.Constant)) for x in v.elts):
-                    kind = "tuple of locals"
+                if isinstance(v, ast.Tuple) and all(isinstance(y, (ast.Name, ast.Constant, ast.BinOp, ast.UnaryOp, ast.operator, ast.unaryop, ast.expr_context)) for x in v.elts for y in ast.walk(x)):
+                    kind = "fresh tuple computed from locals"
                 elif isinstance(v, ast.Name):
                     # local list built privately: assigned a fresh display in this function, never stored elsewhere, not used after publication
                     nm = v.id
